@@ -127,71 +127,7 @@ func checkC30(r *Run) {
 func checkC31(r *Run) {
 	r.Explain = "C31: (R1) each mathutil helper is a member of the table of proved overflow-check idioms: the pair (value, error) returned on each path and the condition of that path are matched against the idiom (c=a+b with c<a or c<b; c=a*b with a!=0 and c/a!=b; int64(a)<0; a<0; a<0 or uint64(a)>MaxUint32); (R2) the arithmetic of RequiredFee, RemainingHours and UxOut.CoinHours is wrap-free (interval arithmetic, ceil-div idiom) and CoinHours returns an error on each checked-helper failure."
 	r.NotDec = "that CoinHours returns exactly floor(coins*t/3.6e9) as a number (the structure hours + (whole*s + (rem*s)/1e6)/3600 is matched, not evaluated)"
-	pair := func(fnRef string, want map[string][]string) {
-		fn := r.fn("C31-R1", fnRef)
-		if fn == nil {
-			return
-		}
-		ff := r.P.Facts(fn)
-		seen := map[string]bool{}
-		for _, b := range fn.Blocks {
-			ret, ok := b.Instrs[len(b.Instrs)-1].(*ssa.Return)
-			if !ok || len(ret.Results) != 2 {
-				continue
-			}
-			key := ff.Term(ret.Results[0]) + " , " + ff.Term(ret.Results[1])
-			conds, known := want[key]
-			if !known {
-				r.Check("C31-R1", fnRef+": unexpected return pair "+key, r.P.Pos(ret.Pos()), false, "not in the idiom table")
-				continue
-			}
-			seen[key] = true
-			paths, okp := ff.PathFacts(b, 100)
-			good := okp && len(paths) > 0
-			detail := ""
-			for _, p := range paths {
-				if _, m := matchAny(conds, p); !m {
-					good = false
-					detail = "path without the idiom's condition: " + strings.Join(p, " ; ")
-				}
-			}
-			r.Check("C31-R1", fnRef+": returns ("+key+") exactly under "+strings.Join(conds, " or "), r.P.Pos(ret.Pos()), good, detail)
-		}
-		for k := range want {
-			if !seen[k] {
-				r.Check("C31-R1", fnRef+": idiom return ("+k+") present", r.P.Pos(fn.Pos()), false, "missing")
-			}
-		}
-	}
-	mu := "util/mathutil."
-	pair("util/mathutil.AddUint64", map[string][]string{
-		"0 , " + mu + "ErrUint64AddOverflow": {"($0 + $1) < $0", "($0 + $1) < $1"},
-		"($0 + $1) , nil":                    {"$0 <= ($0 + $1)", "$1 <= ($0 + $1)"},
-	})
-	pair("util/mathutil.AddUint32", map[string][]string{
-		"0 , " + mu + "ErrUint32AddOverflow": {"($0 + $1) < $0", "($0 + $1) < $1"},
-		"($0 + $1) , nil":                    {"$0 <= ($0 + $1)", "$1 <= ($0 + $1)"},
-	})
-	pair("util/mathutil.MultUint64", map[string][]string{
-		"0 , " + mu + "ErrUint64MultOverflow": {"(($0 * $1) / $0) != $1"},
-		"($0 * $1) , nil":                     {"$0 == 0", "(($0 * $1) / $0) == $1"},
-	})
-	pair("util/mathutil.Uint64ToInt64", map[string][]string{
-		"0 , " + mu + "ErrUint64OverflowsInt64": {"int64($0) < 0"},
-		"int64($0) , nil":                       {"0 <= int64($0)"},
-	})
-	pair("util/mathutil.Int64ToUint64", map[string][]string{
-		"0 , " + mu + "ErrInt64UnderflowsUint64": {"$0 < 0"},
-		"uint64($0) , nil":                       {"0 <= $0"},
-	})
-	pair("util/mathutil.IntToUint32", map[string][]string{
-		"0 , " + mu + "ErrIntUnderflowsUint32": {"$0 < 0"},
-		"0 , " + mu + "ErrIntOverflowsUint32":  {"4294967295 < uint64($0)"},
-		"uint32($0) , nil":                     {"uint64($0) <= 4294967295"},
-	})
-	// the multiplication guard must also exclude division by zero on the failing path
-	r.RequireReturnAllPaths("C31-R1", "util/mathutil.MultUint64", 1, "util/mathutil.ErrUint64MultOverflow", 1, req("a != 0 (the division is defined)", "$0 != 0"))
-	r.RequireReturnAllPaths("C31-R1", "util/mathutil.IntToUint32", 0, "uint32($0)", 1, req("a >= 0", "0 <= $0"))
+	ruleMathutilIdioms(r, "C31-R1")
 
 	// R2
 	arithObligations(r, "C31-R2", "coin.UxOut.CoinHours", "util/fee.RequiredFee", "util/fee.VerifyTransactionFeeForHours", "util/fee.TransactionFee")
@@ -227,4 +163,75 @@ func isStringPtr(t types.Type) bool {
 	}
 	b, ok := p.Elem().Underlying().(*types.Basic)
 	return ok && b.Kind() == types.String
+}
+
+// ruleMathutilIdioms (shared by every property whose sums go through the checked helpers): each mathutil helper
+// is a member of the table of proved overflow-check idioms.
+func ruleMathutilIdioms(r *Run, R1 string) {
+	pair := func(fnRef string, want map[string][]string) {
+		fn := r.fn(R1, fnRef)
+		if fn == nil {
+			return
+		}
+		ff := r.P.Facts(fn)
+		seen := map[string]bool{}
+		for _, b := range fn.Blocks {
+			ret, ok := b.Instrs[len(b.Instrs)-1].(*ssa.Return)
+			if !ok || len(ret.Results) != 2 {
+				continue
+			}
+			key := ff.Term(ret.Results[0]) + " , " + ff.Term(ret.Results[1])
+			conds, known := want[key]
+			if !known {
+				r.Check(R1, fnRef+": unexpected return pair "+key, r.P.Pos(ret.Pos()), false, "not in the idiom table")
+				continue
+			}
+			seen[key] = true
+			paths, okp := ff.PathFacts(b, 100)
+			good := okp && len(paths) > 0
+			detail := ""
+			for _, p := range paths {
+				if _, m := matchAny(conds, p); !m {
+					good = false
+					detail = "path without the idiom's condition: " + strings.Join(p, " ; ")
+				}
+			}
+			r.Check(R1, fnRef+": returns ("+key+") exactly under "+strings.Join(conds, " or "), r.P.Pos(ret.Pos()), good, detail)
+		}
+		for k := range want {
+			if !seen[k] {
+				r.Check(R1, fnRef+": idiom return ("+k+") present", r.P.Pos(fn.Pos()), false, "missing")
+			}
+		}
+	}
+	mu := "util/mathutil."
+	pair("util/mathutil.AddUint64", map[string][]string{
+		"0 , " + mu + "ErrUint64AddOverflow": {"($0 + $1) < $0", "($0 + $1) < $1"},
+		"($0 + $1) , nil":                    {"$0 <= ($0 + $1)", "$1 <= ($0 + $1)"},
+	})
+	pair("util/mathutil.AddUint32", map[string][]string{
+		"0 , " + mu + "ErrUint32AddOverflow": {"($0 + $1) < $0", "($0 + $1) < $1"},
+		"($0 + $1) , nil":                    {"$0 <= ($0 + $1)", "$1 <= ($0 + $1)"},
+	})
+	pair("util/mathutil.MultUint64", map[string][]string{
+		"0 , " + mu + "ErrUint64MultOverflow": {"(($0 * $1) / $0) != $1"},
+		"($0 * $1) , nil":                     {"$0 == 0", "(($0 * $1) / $0) == $1"},
+	})
+	pair("util/mathutil.Uint64ToInt64", map[string][]string{
+		"0 , " + mu + "ErrUint64OverflowsInt64": {"int64($0) < 0"},
+		"int64($0) , nil":                       {"0 <= int64($0)"},
+	})
+	pair("util/mathutil.Int64ToUint64", map[string][]string{
+		"0 , " + mu + "ErrInt64UnderflowsUint64": {"$0 < 0"},
+		"uint64($0) , nil":                       {"0 <= $0"},
+	})
+	pair("util/mathutil.IntToUint32", map[string][]string{
+		"0 , " + mu + "ErrIntUnderflowsUint32": {"$0 < 0"},
+		"0 , " + mu + "ErrIntOverflowsUint32":  {"4294967295 < uint64($0)"},
+		"uint32($0) , nil":                     {"uint64($0) <= 4294967295"},
+	})
+	// the multiplication guard must also exclude division by zero on the failing path
+	r.RequireReturnAllPaths(R1, "util/mathutil.MultUint64", 1, "util/mathutil.ErrUint64MultOverflow", 1, req("a != 0 (the division is defined)", "$0 != 0"))
+	r.RequireReturnAllPaths(R1, "util/mathutil.IntToUint32", 0, "uint32($0)", 1, req("a >= 0", "0 <= $0"))
+
 }
